@@ -386,7 +386,10 @@ class _Inliner:
         out = []
 
         def rec(n):
-            if isinstance(n, (ast.Lambda, ast.ListComp, ast.SetComp, ast.DictComp, ast.GeneratorExp)):
+            if isinstance(n, (ast.ListComp, ast.SetComp, ast.DictComp, ast.GeneratorExp)):
+                rec(n.generators[0].iter)       # the outermost iterable is evaluated once, where the comprehension stands
+                return
+            if isinstance(n, ast.Lambda):
                 return
             if isinstance(n, ast.IfExp):
                 rec(n.test)
